@@ -1129,6 +1129,14 @@ class RpcServer:
         # the outer one handles streaming errors.  Only one access log fires per call.
         try:
             result: Stream[StreamState, Any] = getattr(self._impl, info.name)(**kwargs)
+            # Refuse a malformed return here, where it is still answered with
+            # an error stream.  Past this point nothing catches it: serve()
+            # would die without writing a byte and the client would wait on a
+            # reply that never comes.
+            if not isinstance(result, Stream):
+                raise TypeError(f"Method '{info.name}' must return a Stream, got {type(result).__name__}")
+            if info.header_type is not None and result.header is None:
+                raise TypeError(f"Method '{info.name}' declares header type but returned header=None")
         except Exception as exc:
             _hook_exc = exc
             status = "error"
